@@ -401,8 +401,13 @@ def r5(ctx):
     ctx.inst(R, "torn:prefix-slice", ok_slice and ok_min, b.span, "surviving bytes = data[..min(blocks * block_size, len)]" if ok_slice and ok_min else
              "the torn-write slice is not a prefix clipped to min(blocks * block_size, data.len())")
     ctx.inst(R, "torn:only-durable-entries", ok_synced, b.span, "only files with a durable directory entry receive torn data" if ok_synced else "torn writes are applied without the synced_entries test")
+    # ... laid over the durable image in the order the writes were issued (an overlap ends up with the *newer* write's bytes)
+    rev = sorted({t["f"].rsplit("::", 1)[1] for fb in ctx.w.family(b.id) for bb, t in fb.calls(re.compile(r"^std::vec::Vec::(pop|swap_remove|reverse|sort\w*)$|Iterator(>)?::rev$|^\[T\]::(reverse|sort\w*)$|VecDeque::pop_back$"))})
+    ctx.inst(R, "torn:applied-in-issue-order", not rev, b.span, "surviving prefixes are applied oldest first" if not rev else
+             f"apply_torn_writes walks the surviving writes out of issue order ({', '.join(rev)}): where two unsynced writes overlap and both survive, the overlap gets the older write's "
+             "bytes under the newer write's tail - a state no sequence of block-aligned prefixes permits")
     ctx.inst(R, "torn:only-writes", ok_write, b.span, "only Write records are torn" if ok_write else "torn-write pass does not select exactly the Write records")
-    ctx.floor(R, 4)
+    ctx.floor(R, 5)
 
 
 OP_TABLE = {"mkdir_with_mode": "CreateDir", "rmdir": "RemoveDir", "unlink": "RemoveFile", "rename": "Rename", "write_file": "Write",
@@ -739,6 +744,7 @@ def run(ctx):
     if ctx.config in ("all", "fs_iou"):
         from . import C18
         C18.r12(ctx)   # a ring fsync flushes when it is reaped - after the writes submitted before it
+    C10.r7(ctx)   # ... through either front-end: the tokio OpenOptions forwards append / create_new / truncate to the std setter of the same name
     C10.r5(ctx)   # what reaches the log is what the caller asked for: a truncating open logs its SetLen(0) also for a file it just created
     r13(ctx)
     r12(ctx)
